@@ -4,6 +4,8 @@
 
 package mat
 
+import "reflect"
+
 // Solve solves the linear least squares problem
 //
 //	minimize over x |b - A*x|_2
@@ -49,7 +51,9 @@ func (m *Dense) Solve(a, b Matrix) error {
 
 	switch {
 	case ar == ac:
-		if a == b {
+		// The dynamic type of a user-defined Matrix need not be
+		// comparable, in which case a == b would panic.
+		if reflect.ValueOf(a).Comparable() && a == b {
 			// x = I.
 			if ar == 1 {
 				m.mat.Data[0] = 1
